@@ -32,9 +32,11 @@ def gen_case(rng, tier="quick"):
         big = rng.random() < (0.08 if tier == "quick" else 0.15)
         case = {
             "kind": "export",
-            "n": rng.randrange(1, 9),
+            "n": rng.randrange(1, 9) if rng.random() < 0.7
+            else rng.randrange(9, 41),
             "d": _pick(rng, [2, 2, 3]),
             "chi": rng.randrange(24, 41) if big else rng.randrange(1, 9),
+            "_big": big,
             "rank": _pick(rng, [3, 4]),
             "dt": _pick(rng, [None, 0.1, 0.05]),
             "transforms": rng.random() < 0.4,
@@ -46,11 +48,14 @@ def gen_case(rng, tier="quick"):
         }
         if case["rank"] == 3:
             case["transforms"] = False
+        if case.pop("_big") and case["n"] > 8:
+            case["chi"] = rng.randrange(1, 9)   # long OR fat, not both
     else:
         case = {
             "kind": "pt_tempo_file",
             "coupling": _pick(rng, ["z", "x", "y"]),
-            "steps": rng.randrange(3, 9),
+            "steps": rng.randrange(3, 9) if rng.random() < 0.75
+            else rng.randrange(9, 26),
             "dkmax": _pick(rng, [None, 2, 3]),
             "anon": rng.random() < 0.3,
             "overwrite": rng.random() < 0.3,
@@ -512,6 +517,76 @@ def static_checks(tier, seed):
                             disk.files.get("f.hdf5") != old:
                         viol("remove_not_refused", cell,
                              "file changed by refused remove()")
+    # mode 'write' against existing files of every kind: a valid file was
+    # covered above; also something that is not (or not yet) a readable HDF5
+    # file must never be replaced or removed
+    leftover_disk = simdisk.SimDisk()
+    simdisk.install(leftover_disk)
+    small(7).export("l.hdf5")
+    leftover_disk.sync_closed()
+    l_init, l_log = leftover_disk.logs["l.hdf5"][-1]
+    existing = {
+        "garbage": b"this is not an hdf5 file\n" * 40,
+        "empty": b"",
+        "crash_leftover": simdisk.image_from(l_init, l_log, len(l_log) // 2),
+    }
+    for kind, content in sorted(existing.items()):
+        for front in ("FileProcessTensor", "export", "PtTempo"):
+            report["mode_matrix_cells"] += 1
+            disk = simdisk.SimDisk()
+            simdisk.install(disk)
+            disk.files["f.hdf5"] = content
+            cell = "write/exists:%s/%s" % (kind, front)
+            try:
+                if front == "FileProcessTensor":
+                    obj = ptm.FileProcessTensor(
+                        mode="write", filename="f.hdf5",
+                        hilbert_space_dimension=2, dt=0.1)
+                elif front == "export":
+                    small(5).export("f.hdf5")
+                else:
+                    import oqupy as oq
+                    oq.PtTempo(models.make_bath("z"), 0.0, 0.45,
+                               oq.TempoParameters(dt=0.1, epsrel=1e-4,
+                                                  dkmax=2),
+                               process_tensor_file="f.hdf5")
+                err = None
+            except Exception as e:  # noqa: BLE001
+                err = e
+            disk.sync_closed()
+            if err is None or disk.files.get("f.hdf5") != content or \
+                    "f.hdf5" in disk.removed or "f.hdf5" in disk.open_files:
+                viol("write_mode_overwrote_existing", cell,
+                     "mode 'write' (%s) replaced or removed an existing %s "
+                     "file (error: %r)" % (front, kind, err))
+    # ... and a file another writer currently holds open
+    report["mode_matrix_cells"] += 1
+    disk = simdisk.SimDisk()
+    simdisk.install(disk)
+    first = ptm.FileProcessTensor(mode="write", filename="f.hdf5",
+                                  hilbert_space_dimension=2, dt=0.1)
+    holder = disk.open_files["f.hdf5"][0]
+    try:
+        small(6).export("f.hdf5")
+        err = None
+    except Exception as e:  # noqa: BLE001
+        err = e
+    if err is None or "f.hdf5" in disk.removed or \
+            disk.open_files.get("f.hdf5", (None,))[0] is not holder:
+        viol("write_mode_overwrote_existing", "write/exists:open-by-writer",
+             "mode 'write' replaced or unlinked a file another writer has "
+             "open (error: %r)" % (err,))
+    first.set_mpo_tensor(0, np.ones((1, 1, 4, 4), dtype=complex))
+    first.close()
+    disk.sync_closed()
+    try:
+        back = ptm.import_process_tensor("f.hdf5", "simple")
+        if len(back) != 1:
+            raise ValueError("length %d" % len(back))
+    except Exception as e:  # noqa: BLE001
+        viol("write_mode_overwrote_existing", "write/exists:open-by-writer",
+             "the first writer's file is not what it wrote after a second "
+             "mode-'write' attempt on the same name: %r" % (e,))
     # PtTempo front-end: overwrite flag honoured
     for overwrite in (False, True):
         report["mode_matrix_cells"] += 1
@@ -561,6 +636,16 @@ def static_checks(tier, seed):
             if err is not None or disk.files.get("e.hdf5") == old:
                 viol("overwrite_did_not_replace", cell, repr(err))
     report["mode_matrix_exhaustive"] = True
+    # real files, real HDF5 file driver, real SIGKILL (stub fidelity)
+    import os
+    from .. import fidelity
+    here = os.path.dirname(os.path.dirname(os.path.dirname(
+        os.path.abspath(__file__))))
+    v2, rep2 = fidelity.real_kill_cases(
+        os.environ.get("OQUPY_SRC", "/repo"), here,
+        ncases=1 if tier == "quick" else 2)
+    violations += v2
+    report["real_sigkill_runs"] = rep2
     return {"violations": violations, "report": report}
 
 
